@@ -491,6 +491,9 @@ def run(tier: str) -> int:
     # the repository's own test-suite as a trace source (harness/suitetrace.py)
     import suitetrace
     common.with_engine(o, "suite", lambda: suitetrace.extend(o, tier, PID))
+    if tier == "thorough":  # inductive invariants of the design (Apalache; harness/apalache.py)
+        import apalache
+        common.with_engine(o, "inductive", lambda: apalache.extend(o, tier, PID))
     return o.finish()
 
 
